@@ -11,6 +11,7 @@ and evaluates the property monitor on the implementation's answers (`MONITOR`).
 -/
 import LndModel.Prelude.Lines
 import LndModel.C14.Model
+import LndModel.C14.TrackerDriver
 
 open LndModel LndModel.Lines LndModel.C14
 
@@ -860,7 +861,11 @@ def step (s : St) (line : String) : IO St := do
 end LndModel.C14.Driver
 
 open LndModel.C14.Driver in
-def main : IO Unit := do
+def main (args : List String) : IO Unit := do
+  -- stream `tracker` (BestBlockTracker) has its own trace language, model and monitor
+  if args.contains "tracker" then
+    LndModel.C14.TrackerDriver.main
+    return
   let s ← LndModel.Lines.foldStdin step {}
   let s ← finishOp s
   let nontrivial := s.cSound + s.cComplete + s.cRetract + s.cReorgNotice + s.cHint + s.cHintMove + s.cRange + s.cDone
